@@ -110,6 +110,10 @@ impl WorkerState {
                   was successful
                 */
                 log::debug!("Task not found");
+                // The task may also wait in the backlog of pre-sent tasks
+                self.prefilled_tasks
+                    .values_mut()
+                    .for_each(|tasks| tasks.retain(|t| t.id != task_id));
             }
             Some(task) => task.cancel(),
         }
